@@ -41,7 +41,8 @@ ASSUMPTIONS = [
 ]
 FLOORS = {"forest_checked": 300, "multisource_expected": 40,
           "shared_keymask_merge": 60, "router_load_checked": 250,
-          "router_refusal": 30, "readback_checked": 100}
+          "router_refusal": 30, "readback_checked": 100,
+          "same_list_object_again": 60}
 SHARDS = {"quick": 16, "thorough": 64}
 CLASSES = ["forest", "shared", "conflict", "load", "holes", "refuse", "multi",
            "full"]
@@ -182,7 +183,21 @@ def gen(cls, idx, rng, tier):
         for t in tables[:1]:
             t["entries"] = t["entries"][:k + rng.choice([0, 0, 0, 1])]
         tables = tables[:1]
-    return dict(kind="load", tables=tables, holes=holes,
+    same_list = cls == "multi" and rng.random() < .6
+    if same_list and rng.random() < .7:
+        # the caller keeps one list object for its table and edits it in
+        # place between loads: entries replaced / reordered, same length
+        n = max(1, len(tables[0]["entries"]))
+        for t in tables:
+            while len(t["entries"]) < n:
+                t["entries"].append(([rng.randrange(24)],
+                                     rng.getrandbits(32), rng.getrandbits(32)))
+            del t["entries"][n:]
+        if rng.random() < .5:
+            for t in tables[1:]:
+                t["entries"] = list(tables[0]["entries"])
+                rng.shuffle(t["entries"])
+    return dict(kind="load", tables=tables, holes=holes, same_list=same_list,
                 rtr_fail=cls == "refuse" and rng.random() < .4,
                 buf=rng.choice([64, 256, 255]),
                 via_map=cls in ("multi", "full") and rng.random() < .5)
@@ -352,7 +367,14 @@ def run_load(case, ctx):
         for chip, app, ents, raw in loads:
             seen[chip] = (chip, loads[0][1], ents, raw)
         calls = [list(seen.values())]
+    kept_list = []
     for ci, call in enumerate(calls):
+        if case.get("same_list") and not case["via_map"]:
+            # one list object, edited in place by its owner between loads
+            kept_list[:] = call[0][2]
+            call[0] = call[0][:2] + (kept_list,) + call[0][3:]
+            if ci:
+                ctx.hit("same_list_object_again")
         before = {xy: list(ch.router) for xy, ch in m.chips.items()}
         free = {xy: ch.largest_free_rtr_block() for xy, ch in m.chips.items()}
         mark = len(m.cmds)
